@@ -211,6 +211,9 @@ func checkC14(ctx *pbt.Ctx, c c14Case) error {
 		return fmt.Errorf("executing %q crashed=%v hung=%v: %s", text, out.Crashed, out.Hung, lastLines(out.Stderr, 10))
 	}
 	if out.Resp.Results[0].Stage == "parse" {
+		if err := syntaxRejection(text, out.Resp.Results[0].Err, len(c.Q.Proj)); err != nil {
+			return err
+		}
 		ctx.Label("rejected-by-parser")
 		return nil
 	}
